@@ -131,4 +131,37 @@ Section Match.
       | exact ev_affine_fwd | exact ev_affine_inv | exact ev_affine_ld | exact ev_tanh_fwd | exact ev_tanh_inv
       | exact ev_tanh_ld_inv ].
   Qed.
+  (* grouped, as stated in Props/C18.v *)
+  Lemma ev_leaky_all m g ic y :
+    eval O (en1 [y; m; g; ic]) (leaky_inv_t (Var 1) (Var 2) (Var 3) (Var 0)) = leaky_inv O m g ic y /\
+    eval O (en1 [y; m; g; ic]) (leaky_fwd_t (Var 1) (Var 2) (Var 3) (Var 0)) = leaky_fwd O m g ic y /\
+    eval O (en1 [y; m; g; ic]) (leaky_ld_fwd_t (Var 1) (Var 2) (Var 0)) = leaky_ld_fwd O m g y /\
+    eval O (en1 [y; m; g; ic]) (leaky_ld_inv_t (Var 1) (Var 2) (Var 3) (Var 0)) = leaky_ld_inv O m g ic y.
+  Proof. repeat split; reflexivity. Qed.
+  Lemma ev_rqs_all xp yp dv lo hi x :
+    eval O (enr [x; lo; hi] xp yp dv) (rqs_fwd_t 3 (Var 1) (Var 2) (Var 0)) = rqs_fwd O xp yp dv lo hi x /\
+    eval O (enr [x; lo; hi] xp yp dv) (rqs_inv_t 3 (Var 1) (Var 2) (Var 0)) = rqs_inv O xp yp dv lo hi x /\
+    eval O (enr [x; lo; hi] xp yp dv) (rqs_deriv_t 3 (Var 1) (Var 2) (Var 0)) = rqs_deriv O xp yp dv lo hi x /\
+    eval O (enr [x; lo; hi] xp yp dv) (rqs_ld_fwd_t 3 (Var 1) (Var 2) (Var 0)) = rqs_ld_fwd O xp yp dv lo hi x /\
+    eval O (enr [x; lo; hi] xp yp dv) (rqs_ld_inv_t 3 (Var 1) (Var 2) (Var 0)) = rqs_ld_inv O xp yp dv lo hi x /\
+    eval O (enr [x; lo; hi] xp yp dv) (rqs_fwd_old_t 3 (Var 1) (Var 2) (Var 0)) = rqs_fwd_old O xp yp dv lo hi x /\
+    eval O (enr [x; lo; hi] xp yp dv) (rqs_inv_old_t 3 (Var 1) (Var 2) (Var 0)) = rqs_inv_old O xp yp dv lo hi x.
+  Proof.
+    repeat apply conj; [exact (ev_rqs_fwd _ _ _ _ _ _) | exact (ev_rqs_inv _ _ _ _ _ _) | exact (ev_rqs_deriv _ _ _ _ _ _)
+      | exact (ev_rqs_ld_fwd _ _ _ _ _ _) | exact (ev_rqs_ld_inv _ _ _ _ _ _) | exact (ev_rqs_fwd_old _ _ _ _ _ _)
+      | exact (ev_rqs_inv_old _ _ _ _ _ _)].
+  Qed.
+  Lemma ev_other_all loc scale x :
+    eval O (en1 [x]) (tanh_log_grad_t (Var 0)) = tanh_log_grad O x /\
+    eval O (en1 [x]) (softplus_inv_t (Var 0)) = softplus_inv O x /\
+    eval O (en1 [x]) (softplus_ld_inv_t (Var 0)) = softplus_ld_inv O x /\
+    eval O (en1 [x]) (softplus_ld_fwd_t (Var 0)) = softplus_ld_fwd O x /\
+    eval O (en1 [x]) (exp_inv_t (Var 0)) = exp_inv O x /\
+    eval O (en1 [x]) (exp_ld_inv_t (Var 0)) = exp_ld_inv O x /\
+    eval O (en1 [x]) (tanh_inv_t (Var 0)) = tanh_inv O x /\
+    eval O (en1 [x]) (tanh_ld_inv_t (Var 0)) = tanh_ld_inv O x /\
+    eval O (en1 [x; loc; scale]) (affine_fwd_t (Var 1) (Var 2) (Var 0)) = affine_fwd O loc scale x /\
+    eval O (en1 [x; loc; scale]) (affine_inv_t (Var 1) (Var 2) (Var 0)) = affine_inv O loc scale x /\
+    eval O (en1 [x; loc; scale]) (affine_ld_t (Var 2)) = affine_ld O scale.
+  Proof. repeat split; reflexivity. Qed.
 End Match.
